@@ -460,10 +460,23 @@ func main() {
 	r := ev.New("C11", "model_checking",
 		"source tuples: k in 0..3 sources, each a list of 0..3 items with timestamps from {missing, t1<t2<t3} in every order (ties, unsorted); quick: all tuples of <=2 sources with <=3 items and 3 sources with <=2 items, "+
 			"thorough: all tuples of <=3 sources with <=3 items; per tuple an explicit-state search over request sequences (sizes {0,1,2,3,5}, state = items delivered), every transition replayed on a fresh real Splicer "+
-			"over synthetic Container sources, every continuation asked twice, plus every unmerged request pair (optionally followed by an empty request) and then a large request; long sources (1,19..22,39..41,64,100 items; one source, long+short, two interleaved) under single requests of 19..128 items and a few two-request sequences; real posts built from JSON (six spellings of the published time incl. fractions of a second and an offset) in every pair of sources with <=2 items; distinct_nontrivial = tuples with >=2 non-empty sources")
+			"over synthetic Container sources, every continuation asked twice, plus every unmerged request pair (optionally followed by an empty request) and then a large request; long sources (1,19..22,39..41,64,100 items; one source, long+short, two interleaved) under single requests of 19..128 items and a few two-request sequences; real posts built from JSON (six spellings of the published time incl. fractions of a second and an offset) in every pair of sources with <=2 items; real paged collections (page sizes 1..3 over <=3 embedded pages, with and without an unreadable last reference, which makes a source hand over an error item beyond the number asked for) alone and in every pair under 7 request patterns, judged against the merge of what each source delivers alone; distinct_nontrivial = tuples with >=2 non-empty sources")
 	if *ev.FlagReplay != "" {
 		var s session
-		if key := ev.LoadReplay(*ev.FlagReplay, &s); strings.HasPrefix(key, "real-items") {
+		if key := ev.LoadReplay(*ev.FlagReplay, &s); strings.HasPrefix(key, "paged:") {
+			var ps pagedSession
+			ev.LoadReplay(*ev.FlagReplay, &ps)
+			k, msg := runPaged(ps.Sources, ps.Requests)
+			fmt.Printf("replay: key=%q msg=%q\n", k, msg)
+			if k != "" {
+				r.Violation(k, ps)
+			}
+			r.Eval(1)
+			r.Distinct("a")
+			r.Distinct("b")
+			r.States, r.Transitions = 1, 1
+			r.Finish()
+		} else if strings.HasPrefix(key, "real-items") {
 			realItemsPart(r) // small: run it whole
 			r.Eval(1)
 			r.Distinct("a")
@@ -535,6 +548,7 @@ func main() {
 	_ = shards
 	sizesPart(r)
 	realItemsPart(r)
+	pagedPart(r)
 	r.Sample(session{tuple{{3, 1}, {2, 2, 0}}, []int{2, 0, 5}})
 	r.Sample(session{tuple{{}, {1, 3}, {3}}, []int{1, 1, 1, 1}})
 	r.Extra["tuples"] = len(tuples)
